@@ -167,6 +167,6 @@ def valid_case(case):
 
 
 def run(ctx):
-    ctx.hyp('strat_case', 4000 if ctx.quick else 60000, label=1)
+    ctx.hyp('strat_case', 20000 if ctx.quick else 250000, label=1)
     return ctx.finish('exploration', 'Hypothesis peers over the database (1-6 names per category, gss-* and unknown names mixed in, 1/3 with host-key and GEX probes answered at boundary sizes) x banners of OpenSSH / Dropbear / libssh / TinySSH at, just below and just above every first-appeared version in the table (plus multi-digit versions), recognised-but-unversioned products and unrecognised software; text and JSON; non-trivial = recognised product and at least one rated algorithm',
                       assumptions=['ratings are read from the same report (JSON notes); "knows in the identified version" = table entry has no version list or lists the product at a numerically <= version (server side)'])
